@@ -118,6 +118,18 @@ def scenarios(ctx):
             for mode in ("whole", "rand", "small-first"):
                 out.append({"kind": "passthrough", "name": "invalid/%s/%s" % (ce.decode(), mode), "cfg": "respdecomp=1,ztime=1000000", "req": REQ,
                             "pieces": cuts(r, res, mode), "payload": pl, "valid": False, "compressed": pl, "framing": "cl", "close": False})
+    # junk behind a gzip-like header: the restart probe skips 10 / 12 / up-to-NUL bytes (FLG decides) before every retry, and when all
+    # retries fail the WHOLE chunk must still be passed through
+    for flg in (0x01, 0x02, 0x04, 0x08, 0x10, 0x18, 0x67, 0xff):
+        # 0x07 = BFINAL 1, BTYPE 3 (reserved): an immediate data error for raw deflate, and no gzip/zlib magic either
+        junk = b"\x07" + bytes(r.randrange(256) for _ in range(r.randint(30, 90)))
+        pl = (b"\x1f\x8b\x08" + bytes([flg]) + b"\x00\x00\x00\x00\x00\x03" + (b"\x00\x00" if flg & 4 and flg != 0xff else b"") +
+              (b"nm\x00" if flg & 0x08 else b"") + (b"cm\x00" if flg & 0x10 else b"") + junk)
+        for ce in (b"gzip", b"deflate"):
+            res = frame(r, b"HTTP/1.1 200 OK\r\nContent-Encoding: " + ce + b"\r\n", pl, "cl")
+            for mode in ("whole", "rand") if quick else ("whole", "rand", "small-first", "rand"):
+                out.append({"kind": "passthrough", "name": "gzip-like-junk/%02x/%s/%s" % (flg, ce.decode(), mode), "cfg": "respdecomp=1,ztime=1000000", "req": REQ,
+                            "pieces": cuts(r, res, mode), "payload": pl, "valid": False, "compressed": pl, "framing": "cl", "close": False})
     # two layers and layer limits
     for ce, layers_fn, lim in ((b"gzip, deflate", (gz, raw_deflate), 2), (b"deflate, gzip", (raw_deflate, gz), 2), (b"gzip,gzip", (gz, gz), 2),
                                (b"gzip, gzip, gzip", (gz, gz, gz), 2), (b"gzip, deflate", (gz, raw_deflate), 1), (b"gzip,  deflate", (gz, raw_deflate), 3),
@@ -233,9 +245,26 @@ def run(ctx, model_ok=True, proofs_broken=False):
                     note("S3", {"script": lines, "what": "%s: %d bytes delivered; neither the payload (%d) nor the raw body (%d)" % (
                         sc["name"], len(delivered), len(sc["payload"]), len(sc["compressed"]))})
         elif sc["kind"] == "passthrough":
-            if delivered != sc["payload"]:
-                note("passthrough-lost", {"script": lines, "what": "%s: data not valid for the announced coding: %d of %d bytes delivered" % (
-                    sc["name"], len(delivered), len(sc["payload"]))})
+            # when some inflate() call produced output the library has (deliberately) taken the stream for partly valid: "there is data
+            # even if there is an error, so use this data"; that is a corrupted coded stream, not data to pass through
+            produced = any(len(x.split(":")) > 2 and x.split(":")[2] not in ("", "-") for zt in traces if zt != "-" for x in zt.split(","))
+            if produced:
+                stats["passthrough_partly_decodable_skipped"] = stats.get("passthrough_partly_decodable_skipped", 0) + 1
+            elif delivered != sc["payload"]:
+                # known class S3b: exactly the body bytes of EARLIER data calls are missing (the pass-through starts with the whole chunk
+                # in which the last retry failed). Anything else - bytes missing from inside a chunk, reordered or invented - is not.
+                pl = sc["payload"]
+                body_off = sum(len(x) for x in sc["pieces"]) - len(pl)
+                bounds, acc = set(), 0
+                for x in sc["pieces"]:
+                    acc += len(x)
+                    if acc - body_off > 0:
+                        bounds.add(acc - body_off)
+                k = len(pl) - len(delivered)
+                earlier = 0 < k < len(pl) + 1 and delivered == pl[k:] and k in bounds
+                note("passthrough-lost" if earlier else "passthrough-damaged",
+                     {"script": lines, "what": "%s: data not valid for the announced coding: %d of %d bytes delivered%s" % (
+                         sc["name"], len(delivered), len(pl), "" if earlier else " and what is missing is not a run of whole earlier chunks")})
         elif sc["kind"] == "layers":
             dump0 = cl.first_dump(lines, outs)[0] or {}
             chain = [x for x in dump0.get("dec", "").split(",") if x]
@@ -288,6 +317,7 @@ def run(ctx, model_ok=True, proofs_broken=False):
                             "limits {1000, 20000, 1 MiB}. Pass 1 records inflate results, pass 2 compares implementation and model on them",
                     "scenarios_by_kind": {k: sum(1 for s in scs if s["kind"] == k) for k in ("faithful", "passthrough", "layers", "bomb")},
                     "inflate_calls_recorded": stats["inflate_calls"], "body_blocks_delivered": stats["blocks"],
+                    "passthrough_partly_decodable_skipped": stats.get("passthrough_partly_decodable_skipped", 0),
                     "disagreements_checked": ndis, "model_unsupported_scripts": lib.UNSUPPORTED_SEEN[0],
                     "samples": [p2[0][:6], p2[len(p2) // 2][:6]], "exhaustive": False})
 
